@@ -59,6 +59,28 @@ func runIngest(a *Analyzer, r *Results) {
 			w.AutoSplit = true
 			w.Config = c.name
 			w.Assume = c.assume
+			if id == idE2 {
+				// cache container invariant (rules F2.*, F2.key, F3.*, F6.key, F7 decide it): a message read from the
+				// cache at key K was inserted under the FILTER guards with key = its own height
+				w.Inject = func(e *Effect) []*Atom {
+					if e.Kind != "call" || len(e.Path) != 1 || len(e.Args) < 2 {
+						return nil
+					}
+					m := e.Args[len(e.Args)-1]
+					um := unfreeze(m)
+					if um.Op != "elem" || len(um.Args) != 1 || um.Args[0].Op != "lookup" || um.Args[0].Args[0].Key() != Field(This("rawmessagesfilter.RawMessageFilter"), "futureCache").Key() {
+						return nil
+					}
+					rmf := This("rawmessagesfilter.RawMessageFilter")
+					site := "cache invariant (F2/F3/F6)"
+					mk := func(at *Atom) *Atom { at.Site = site; return at }
+					return []*Atom{
+						mk(Eq(ht(hdr(m)), um.Args[0].Args[1])),
+						mk(Ne(mid(snd(m)), Field(rmf, "myMemberId"))),
+						mk(Eq(inst(hdr(m)), Field(rmf, "instanceId"))),
+					}
+				}
+			}
 			w.Run(fn, nil, nil)
 			for _, u := range w.Undecided {
 				r.Undecided = append(r.Undecided, id+": "+u)
@@ -108,6 +130,7 @@ func (ig *ingest) onEffect(e *Effect) {
 	ig.effects++
 	k := ig.k
 	a := ig.a
+	ig.gates(e)
 	switch {
 	case e.Kind == "call" && e.Name == "rawmessagesfilter.HandleConsensusMessage":
 		ig.deliver(e)
